@@ -1,0 +1,31 @@
+//go:build verif
+
+// Contracts for package parser (comment-only; read by /verif/plvc).
+
+package parser
+
+// ---- C15: the pooled parser object ------------------------------------------------------
+
+// the parser pool only ever holds *parser objects (see parserPool.New and ParsePipeline)
+//@ extern sync.(*Pool).Get
+//@ modifies nothing
+//@ ensures p == addr(parserPool) ==> typeis(result, *parser) && result.(*parser) != nil
+
+// a recycled parser carries nothing over: every field is assigned before the object is
+// used again.  Not claimed (shown harmless where they are read, see DESIGN.md C15):
+// yyParser (the generated driver overwrites lval and re-slices its stack before reading),
+// lastClosing (written by the constructors, never read), inject (read only while `injecting`
+// is set, and InjectItem sets both).
+//@ func newParser
+//@ props C15
+//@ overwrites result -yyParser -lastClosing -inject
+//@ ensures result != nil ==> !result.injecting && len(result.errs) == 0 && len(result.parseResult) == 0
+//@ ensures result != nil ==> result.lex.input == input && result.lex.pos == 0 && result.lex.start == 0 && result.lex.width == 0 && result.lex.lastPos == 0
+//@ ensures result != nil ==> result.lex.parenDepth == 0 && result.lex.braceDepth == 0 && result.lex.bracketDepth == 0 && result.lex.stringOpen == 0 && result.lex.backquoteOpen == 0
+//@ ensures result != nil ==> result.lex.itemp == nil && !result.lex.scannedItem && result.posCache.query == input
+
+// inject is written together with the flag that guards its reads
+//@ func (*parser).InjectItem
+//@ props C15
+//@ requires p != nil && !p.injecting && (typ == 0 || (typ > startSymbolsStart && typ < startSymbolsEnd))
+//@ ensures !old(p.injecting) ==> p.injecting && p.inject == typ
